@@ -9,6 +9,7 @@ pub mod c03;
 pub mod c04;
 pub mod c05;
 pub mod c06;
+pub mod c07;
 pub mod c08;
 pub mod c09;
 pub mod c11;
@@ -40,7 +41,7 @@ pub struct CheckDef {
 }
 
 pub fn registry() -> Vec<CheckDef> {
-    vec![c01::def(), c02::def(), c03::def(), c04::def(), c05::def(), c06::def(), c08::def(), c09::def(), lax::def_c10(), c11::def(), c12::def(), c13::def(), c14::def(), c15::def(), c16::def(), c18::def(), c19::def(), c20::def(), c17::def()]
+    vec![c01::def(), c02::def(), c03::def(), c04::def(), c05::def(), c06::def(), c07::def(), c08::def(), c09::def(), lax::def_c10(), c11::def(), c12::def(), c13::def(), c14::def(), c15::def(), c16::def(), c18::def(), c19::def(), c20::def(), c17::def()]
 }
 
 /// deterministic xorshift generator for seeded sampling
